@@ -561,6 +561,75 @@ Definition pem_decode (buf : bytes) (limit : N) : res bytes :=
         b64_loop inp n16 0 0 3 ([], 0)
   end.
 
+(* ---- psPemDecode WITH the encrypted-PEM headers (pem_decode_mem.c 225-290, 300-340).
+   [haspw] = a password was supplied (the password itself only enters PBKDF1 and the cipher, which are
+   not parsing and are not modelled).  Result: (cipher kind 0 none / 1 DES-EDE3-CBC / 2 AES-128-CBC,
+   IV parsed from DEK-Info, base64-decoded body before decryption). *)
+Definition s_DES3HDR : bytes :=      (* "DEK-Info: DES-EDE3-CBC," *)
+  [68;69;75;45;73;110;102;111;58;32;68;69;83;45;69;68;69;51;45;67;66;67;44].
+Definition s_AESHDR : bytes :=       (* "DEK-Info: AES-128-CBC," *)
+  [68;69;75;45;73;110;102;111;58;32;65;69;83;45;49;50;56;45;67;66;67;44].
+
+Definition hex_digit (c : N) : option N :=
+  if (48 <=? c) && (c <=? 57) then Some (c - 48)
+  else if (97 <=? c) && (c <=? 102) then Some (c - 87)
+  else if (65 <=? c) && (c <=? 70) then Some (c - 55)
+  else None.
+
+(* psHexToBinary(buf + p, bin, nbytes) (core/src/corelib_strings.c 354-390): reads 2*nbytes characters
+   one at a time, stops at the first non-hex one.  Ok None = PS_FAILURE. *)
+Fixpoint hex_to_bin (nbytes : nat) (buf : bytes) (limit p : N) (acc : bytes) : res (option bytes) :=
+  match nbytes with
+  | O => Ok (Some (rev acc))
+  | S k =>
+      do h <- rd buf limit p;
+      match hex_digit h with None => Ok None | Some hv =>
+      do l <- rd buf limit (p + 1);
+      match hex_digit l with None => Ok None | Some lv =>
+      hex_to_bin k buf limit (p + 2) ((hv * 16 + lv) :: acc) end end
+  end.
+
+Definition pem_decode_pw (haspw : bool) (buf : bytes) (limit : N) : res (N * bytes * bytes) :=
+  do f <- pem_check_ok buf limit n_PEM_TYPE_ANY;
+  match f with
+  | None => Err c_PS_PARSE_FAIL
+  | Some (start0, endp) =>
+      do p1 <- pem_strnstr buf limit 0 s_PROCTYPE;
+      do enc <- (match p1 with None => Ok false | Some _ =>
+                   do p2 <- pem_strnstr buf limit 0 s_ENCRYPTED; Ok (match p2 with Some _ => true | None => false end) end);
+      if negb enc then
+        let n16 := (endp - start0) mod two16 in
+        do inp <- slice buf limit start0 n16;
+        do out <- b64_loop inp n16 0 0 3 ([], 0);
+        Ok (0, [], out)
+      else if negb haspw then Err c_PS_ARG_FAIL
+      else
+        do d <- pem_strnstr buf limit 0 s_DES3HDR;
+        do hdr <- (match d with
+                   | Some q => Ok (Some (1, q + lenN s_DES3HDR, 8))
+                   | None => do a <- pem_strnstr buf limit 0 s_AESHDR;
+                             Ok (match a with Some q => Some (2, q + lenN s_AESHDR, 16) | None => None end)
+                   end);
+        match hdr with
+        | None => Err c_PS_PARSE_FAIL                       (* unrecognised cipher *)
+        | Some (kind, s, ivlen) =>
+            if limit <? s + 2 * ivlen then Err c_PS_PARSE_FAIL else       (* keyBufEnd - start < 2 * IVLEN *)
+            do iv <- hex_to_bin (N.to_nat ivlen) buf limit s [];
+            match iv with
+            | None => Err c_PS_FAILURE
+            | Some ivb =>
+                let start := s + 2 * ivlen in
+                if endp <? start then Err c_PS_PARSE_FAIL else
+                let n16 := (endp - start) mod two16 in
+                do inp <- slice buf limit start n16;
+                do out <- b64_loop inp n16 0 0 3 ([], 0);
+                (* C09-pem-cipher-block-length.patch: the ciphers work on whole blocks *)
+                if negb (lenN out mod ivlen =? 0) then Err c_PS_PARSE_FAIL
+                else Ok (kind, ivb, out)
+            end
+        end
+  end.
+
 (* psPemCertBufToList: [limit] = the caller's length argument.  Result: decoded certificates in order. *)
 Fixpoint pem_list_loop (fuel : nat) (buf : bytes) (limit pos : N) (acc : list bytes) : res (list bytes) :=
   if limit <=? pos then Ok (rev acc) else                      (* while (len > 0), len = bufEnd - buf *)
